@@ -38,6 +38,19 @@ func genC13(seed uint64, tier string) *Plan {
 	if r.chance(0.3) {
 		p.Knobs["behaviour_weight"] = -1
 	}
+	if r.chance(0.5) { // application validators that park, reject, ignore
+		p.Knobs["nval_default"] = float64(r.rng(0, 2))
+		p.Knobs["topic_val"] = float64(b2i(r.chance(0.6)))
+		p.Knobs["v0_inline"] = float64(b2i(r.chance(0.4)))
+		p.Knobs["v3_inline"] = float64(b2i(r.chance(0.3)))
+		p.Knobs["v3_conc"] = float64([]int{0, 1, 1, 2}[r.intn(4)])
+		p.Knobs["val_throttle"] = float64([]int{0, 1, 2}[r.intn(3)])
+		p.Knobs["val_queue"] = float64([]int{0, 1, 2, 8}[r.intn(4)])
+		p.Knobs["p_park"] = []float64{0, 0.3, 0.7, 1}[r.intn(4)]
+		p.Knobs["p_reject"] = []float64{0, 0.2, 0.5}[r.intn(3)]
+		p.Knobs["p_ignore"] = []float64{0, 0.2}[r.intn(2)]
+		p.Knobs["workers"] = float64(r.rng(1, 2))
+	}
 	np := r.rng(1, 3)
 	if tier == "thorough" {
 		np = r.rng(1, 5)
@@ -58,7 +71,7 @@ func genC13(seed uint64, tier string) *Plan {
 		w  int
 	}{{"identify", 3}, {"open", 8}, {"sub", 8}, {"unsub", 2}, {"graft", 8}, {"prune", 3}, {"pub", 6}, {"fwd", 2}, {"resend", 2}, {"ihave", 3},
 		{"iwant", 2}, {"idontwant", 2}, {"reset-out", 3}, {"close-out", 2}, {"reset-in", 4}, {"close-in", 2}, {"disconnect", 2}, {"reconnect", 3},
-		{"adv", 10}, {"advlong", 2}, {"node-sub", 2}, {"node-cancel", 1}, {"node-pub", 2}, {"stall", 1}, {"score", 3}, {"blacklist", 0}, {"open2", 1}, {"direct-add", 1}, {"direct-rm", 1}, {"extensions", 2}}
+		{"adv", 10}, {"advlong", 2}, {"release", 5}, {"reset-storm", 2}, {"node-sub", 2}, {"node-cancel", 1}, {"node-pub", 2}, {"stall", 1}, {"score", 3}, {"blacklist", 0}, {"open2", 1}, {"direct-add", 1}, {"direct-rm", 1}, {"extensions", 2}}
 	tot := 0
 	for _, o := range ops {
 		tot += o.w
@@ -75,6 +88,15 @@ func genC13(seed uint64, tier string) *Plan {
 		}
 		i := int64(r.intn(np))
 		switch op {
+		case "release":
+			add("release", int64(r.intn(4)))
+		case "reset-storm":
+			// the peer resets the node's outbound stream several times while staying connected
+			// (dead-peer back-off: attempts 1..MaxBackoffAttempts, then the node gives up)
+			for c := r.rng(2, 6); c > 0; c-- {
+				add("reset-in", i)
+				add("adv", int64(r.rng(900, 2500)))
+			}
 		case "adv":
 			add("adv", int64(r.rng(1, 30)))
 		case "advlong":
@@ -122,7 +144,11 @@ func genBringUp(r *prng, p *Plan, i int, ntopics int, full float64) {
 	if r.chance(0.5) {
 		version = int64(r.intn(3)) // favour mesh-capable peers
 	}
-	add("peer", int64(i), version, int64(r.intn(2)), int64(i))
+	ipg := int64(i)
+	if r.chance(0.2) {
+		ipg = 100 // several peers behind one address
+	}
+	add("peer", int64(i), version, int64(r.intn(2)), ipg)
 	steps := []func(){
 		func() { add("identify", int64(i)) },
 		func() { add("adv", int64(r.rng(3, 8))) },
@@ -197,6 +223,18 @@ func runC13(s *sim) {
 			fp.send(rpcExtensions(false, false))
 		}
 	}
+	// when did a peer lose its last pubsub stream (either direction)?
+	trackStreams := func() {
+		for _, fp := range w.fakes {
+			alive := fp.outAlive() || fp.inAlive()
+			if alive {
+				delete(w.streamsGoneAt, fp.id)
+			} else if _, ok := w.streamsGoneAt[fp.id]; !ok {
+				w.streamsGoneAt[fp.id] = s.now()
+			}
+		}
+	}
+	w.afterItem = append(w.afterItem, func(it Item) { trackStreams() })
 	// probes
 	w.afterItem = append(w.afterItem, func(it Item) {
 		switch it.Op {
@@ -246,10 +284,27 @@ func runC13(s *sim) {
 				s.probe("disconnect_while_in_mesh")
 			}
 			if fp.connected() {
+				w.lastDisconnect[fp.id] = s.now()
 				fp.stall(false)
 				fp.disconnect()
 				s.settle()
 				s.run(s.now()) // execute the per-stream death events
+			}
+			trackStreams()
+		}
+		// validations still parked when the peers left complete now (late verdicts)
+		if g := s.parkedGates(); len(g) > 0 {
+			s.probe("validation_outlives_peer")
+			// release until nothing is parked any more (a released validation may enter the next validator)
+			for round := 0; round < 64; round++ {
+				g = s.parkedGates()
+				if len(g) == 0 {
+					break
+				}
+				for _, x := range g {
+					s.release(x, 0)
+					s.settle()
+				}
 			}
 		}
 		// retention: longest configured period + sweeps
@@ -409,7 +464,38 @@ func leakScan(w *nodeWorld, pid peer.ID) []leak {
 		if gs.gate != nil {
 			gs.gate.Lock()
 			if _, ok := gs.gate.peerStats[pid]; ok {
-				add("gater.peerStats", "")
+				cause := ""
+				// cause classes (distinct signatures so that a listed finding does not hide another cause)
+				var goneAt time.Duration
+				w.n.mu.Lock()
+				for _, r := range w.n.raw {
+					if r.kind == "closedout" && r.p == pid {
+						goneAt = r.t
+					}
+				}
+				late := false
+				for _, r := range w.n.raw {
+					if (r.kind == "deliver" || r.kind == "reject" || r.kind == "duplicate") && r.from == pid && r.t >= w.streamsGoneAt[pid] && w.streamsGoneAt[pid] > 0 {
+						late = true
+					}
+				}
+				w.n.mu.Unlock()
+				_ = goneAt
+				shared := false
+				if me := w.fakeByID(pid); me != nil {
+					for _, o := range w.fakes {
+						if o != me && o.h.addr.Equal(me.h.addr) {
+							shared = true
+						}
+					}
+				}
+				switch {
+				case late:
+					cause = "/verdict-after-streams-closed"
+				case shared:
+					cause = "/shared-ip"
+				}
+				add("gater.peerStats"+cause, "")
 			}
 			gs.gate.Unlock()
 		}
